@@ -6,6 +6,7 @@
 //!      | S<k>:<sid>          add_rpc_service(service with SERVICE_NAME number k)
 //!      | L<lid>              route_layer(layer lid)
 //!      | [  ...  ]           build a nested router and merge it
+//!      | [c ...  ]           the nested router starts as a clone of the current one
 use crate::util::*;
 use anemo::rpc::RpcService;
 use anemo::{Request, Response, Router};
@@ -105,7 +106,12 @@ pub fn run() {
         for (i, op) in ops.iter().enumerate() {
             let top = stack.pop().unwrap();
             let r = std::panic::catch_unwind(std::panic::AssertUnwindSafe(|| -> Vec<Router> {
-                if *op == "[" {
+                if *op == "[c" {
+                    // the nested router starts as a clone of the one built so far (then usually gets a route layer):
+                    // merging it back registers every path a second time
+                    let c = top.clone();
+                    vec![top, c]
+                } else if *op == "[" {
                     vec![top, Router::new()]
                 } else if *op == "]" {
                     let below = stack.pop().unwrap();
